@@ -560,6 +560,31 @@ func init() {
 		"fmt.Fprintf": func(fr *frame, a []value) value {
 			return tuple{fr.w.tb.Const(64, 0), iface{}}
 		},
+		"github.com/fxamacker/cbor/v2.Unmarshal": func(fr *frame, a []value) value {
+			// only the form atree uses: Unmarshal(data, *uint64), executed through the
+			// library's own stream decoder (reflection-free path)
+			w := fr.w
+			target := a[1].(iface)
+			pt, ok := target.t.Underlying().(*types.Pointer)
+			if !ok {
+				w.unsupported("cbor.Unmarshal into %s", target.t)
+			}
+			b, ok := pt.Elem().Underlying().(*types.Basic)
+			if !ok || b.Kind() != types.Uint64 {
+				w.unsupported("cbor.Unmarshal into %s", target.t)
+			}
+			pkg := w.eng.Prog.ImportedPackage("github.com/fxamacker/cbor/v2")
+			newDec := pkg.Func("NewByteStreamDecoder")
+			dec := w.call(fr, token.NoPos, newDec, []value{a[0]})
+			decT := types.NewPointer(pkg.Type("StreamDecoder").Object().Type())
+			m := w.lookupMethod(decT, "DecodeUint64")
+			r := w.call(fr, token.NoPos, m, []value{dec}).(tuple)
+			if err := r[1].(iface); err.t != nil {
+				return err
+			}
+			store(target.v.(*value), r[0])
+			return iface{}
+		},
 		"errors.As":           func(fr *frame, a []value) value { return fr.w.errorsAs(fr, a) },
 		"errors.Is":           func(fr *frame, a []value) value { return fr.w.errorsIs(fr, a) },
 		"runtime/debug.Stack": func(fr *frame, a []value) value { return []value(nil) },
